@@ -105,9 +105,39 @@ func (s *State) clone() *State {
 
 // havocAll forgets the whole modelled heap (a call that may modify anything).
 func (x *Exec) havocAll(st *State) {
+	// variables of the generated contract functions live in cells that no
+	// verified code can reach: they keep their values
+	type kept struct {
+		c specCell
+		v *Term
+	}
+	var keep []kept
+	for _, c := range x.specCells {
+		keep = append(keep, kept{c, x.w.ts.Select(x.comp(st, c.comp, c.sort), c.ref)})
+	}
+	// package-level variables named in verifGlobals() are never reassigned
+	// (standing assumption): they survive
+	consts := map[string]*Term{}
+	for _, g := range x.eng.constGlobals() {
+		n, s := x.globComp(g)
+		consts[n] = x.comp(st, n, s)
+	}
 	x.epochN++
 	st.heap = map[string]*Term{}
 	st.epoch = x.epochN
+	for n, v := range consts {
+		st.heap[n] = v
+	}
+	for _, k := range keep {
+		st.heap[k.c.comp] = x.w.ts.Store(x.comp(st, k.c.comp, k.c.sort), k.c.ref, k.v)
+	}
+}
+
+// specCell: an address-taken local variable of a generated contract function.
+type specCell struct {
+	comp string
+	sort Sort
+	ref  *Term
 }
 
 type Obligation struct {
@@ -122,6 +152,8 @@ type Obligation struct {
 
 type Exec struct {
 	entryAllocs []*Term
+	epochDef    map[int][]epochPart
+	specCells   []specCell
 	w        *World
 	prog     *ssa.Program
 	eng      *Engine
@@ -269,12 +301,36 @@ func (x *Exec) comp(st *State, name string, s Sort) *Term {
 		return t
 	}
 	x.compSort[name] = s
-	t := x.w.Const(fmt.Sprintf("%s!%d", name, st.epoch), s)
+	t := x.baseOf(st.epoch, name, s, st.alloc)
 	st.heap[name] = t
-	if st.epoch == 0 {
+	return t
+}
+
+// epochPart: a merged epoch is, for components no merged path had touched,
+// the path-wise choice between the base components of the merged epochs.
+type epochPart struct {
+	cond  *Term
+	epoch int
+}
+
+func (x *Exec) baseOf(epoch int, name string, s Sort, alloc *Term) *Term {
+	if parts, ok := x.epochDef[epoch]; ok {
+		var cur *Term
+		for i := len(parts) - 1; i >= 0; i-- {
+			v := x.baseOf(parts[i].epoch, name, s, alloc)
+			if cur == nil {
+				cur = v
+			} else {
+				cur = x.w.ts.Ite(parts[i].cond, v, cur)
+			}
+		}
+		return cur
+	}
+	t := x.w.Const(fmt.Sprintf("%s!%d", name, epoch), s)
+	if epoch == 0 {
 		x.noteBase(t, x.w.Const("alloc!0", SInt))
 	} else {
-		x.noteBase(t, st.alloc)
+		x.noteBase(t, alloc)
 	}
 	return t
 }
@@ -757,6 +813,14 @@ func (x *Exec) mergeStatesRel(guards, conds []*Term, sts []*State) *State {
 		if s.epoch != out.epoch {
 			x.epochN++
 			out.epoch = x.epochN
+			if x.epochDef == nil {
+				x.epochDef = map[int][]epochPart{}
+			}
+			parts := make([]epochPart, len(sts))
+			for i := range sts {
+				parts[i] = epochPart{conds[i], sts[i].epoch}
+			}
+			x.epochDef[out.epoch] = parts
 			break
 		}
 	}
